@@ -316,6 +316,30 @@ func ruleP18Format(p *Prog, r *Report) {
 		for _, ret := range returnsOf(sum) {
 			c, _ := callOf(retResult(ret, 0))
 			r.check(c != nil && staticCallee(c) != nil && fnBase(staticCallee(c)) == "Format", rule, "Summary:format", p.instrPos(ret), "the summary is the formatted text", "the summary is not Format(text)")
+			// … of the summary's own text: what is styled is s.ToString(), character for character
+			// (tags wrapped in place), not a cleaned, trimmed or otherwise rewritten copy of it
+			if c == nil || len(c.Common().Args) == 0 {
+				continue
+			}
+			text := strip(c.Common().Args[len(c.Common().Args)-1])
+			via := ""
+			for hops := 0; hops < 3; hops++ {
+				rc, _ := callOf(text)
+				if rc == nil || staticCallee(rc) == nil {
+					break
+				}
+				if fnBase(staticCallee(rc)) == "ReplaceAllStringFunc" && len(rc.Common().Args) == 3 {
+					text = strip(rc.Common().Args[1])
+					continue
+				}
+				break
+			}
+			nm, recv, _, _ := methodCall(text)
+			okText := nm == "ToString" && recv != nil && len(sum.Params) > 0 && strip(recv) == ssa.Value(sum.Params[len(sum.Params)-1])
+			if !okText {
+				via = describeValue(text)
+			}
+			r.check(okText, rule, "Summary:text", p.instrPos(ret), "what is styled is the summary's own text (ToString), tags wrapped in place", "the text the summary serialiser styles is not the summary's own ToString() but "+via+": characters of the summary are dropped or altered on the way to the output (print no longer reproduces the summary, with or without colours)")
 		}
 	}
 }
@@ -430,7 +454,7 @@ func ruleP18NoStyleApplied(p *Prog, r *Report) {
 					}
 				}
 			})
-			unconditional := len(guardsOf(c.Block())) == 0
+			unconditional := len(guardsOf(c.Block())) == 0 && skippableAt(c.Block(), nil) == nil
 			r.check(okBefore && unconditional, rule, key, p.instrPos(c), "--no-style is applied, unconditionally, before the serialiser is obtained", "--no-style is applied only conditionally or after the serialiser was obtained")
 		}
 	}
